@@ -231,6 +231,7 @@ impl Check for C15 {
 pub fn delta_strategy() -> impl Strategy<Value = f64> {
     prop_oneof![
         2 => prop_oneof![Just(1.1f64), Just(2.0), Just(2.5), Just(5.0), Just(10.0), Just(20.0), Just(50.0), Just(100.0), Just(200.0), Just(1000.0)],
+        1 => prop_oneof![Just(1.001f64), Just(1.01), Just(1.05), 1.0001f64..1.1],
         1 => 1.01f64..1000.0,
         1 => 1.01f64..30.0,
     ]
